@@ -1,10 +1,13 @@
 package cli
 
 import (
+	"encoding/base64"
 	"fmt"
 	"os"
 	"path/filepath"
+	"strconv"
 	"strings"
+	"unicode/utf8"
 
 	"github.com/Vedant9500/WTF/internal/config"
 	"github.com/Vedant9500/WTF/internal/database"
@@ -116,8 +119,54 @@ func saveToPersonalDatabase(dbPath string, entry database.Command) error {
 	return writePersonalDatabase(dbPath, commands)
 }
 
+// marshalNotebook encodes the notebook with every string value as a double-quoted scalar.
+// yaml.v3's default styles do not round-trip some strings (a value starting with a newline
+// comes back empty, a block scalar whose first line is indented makes the whole file
+// unparseable); double-quoted scalars escape every special character and always read back
+// unchanged. The document is built node by node because yaml.Node.Encode already loses them.
+func marshalNotebook(commands []database.Command) ([]byte, error) {
+	doc := &yaml.Node{Kind: yaml.SequenceNode, Tag: "!!seq"}
+	for i := range commands {
+		c := &commands[i]
+		m := &yaml.Node{Kind: yaml.MappingNode, Tag: "!!map"}
+		add := func(key string, value *yaml.Node) {
+			m.Content = append(m.Content, &yaml.Node{Kind: yaml.ScalarNode, Tag: "!!str", Value: key}, value)
+		}
+		add("command", yamlString(c.Command))
+		add("description", yamlString(c.Description))
+		add("keywords", yamlStrings(c.Keywords))
+		if len(c.Tags) > 0 {
+			add("tags", yamlStrings(c.Tags))
+		}
+		if c.Niche != "" {
+			add("niche", yamlString(c.Niche))
+		}
+		if len(c.Platform) > 0 {
+			add("platform", yamlStrings(c.Platform))
+		}
+		add("pipeline", &yaml.Node{Kind: yaml.ScalarNode, Tag: "!!bool", Value: strconv.FormatBool(c.Pipeline)})
+		doc.Content = append(doc.Content, m)
+	}
+	return yaml.Marshal(doc)
+}
+
+func yamlString(v string) *yaml.Node {
+	if !utf8.ValidString(v) { // not representable as YAML text: keep the bytes, as yaml.Marshal does
+		return &yaml.Node{Kind: yaml.ScalarNode, Tag: "!!binary", Value: base64.StdEncoding.EncodeToString([]byte(v))}
+	}
+	return &yaml.Node{Kind: yaml.ScalarNode, Tag: "!!str", Value: v, Style: yaml.DoubleQuotedStyle}
+}
+
+func yamlStrings(vs []string) *yaml.Node {
+	n := &yaml.Node{Kind: yaml.SequenceNode, Tag: "!!seq", Style: yaml.FlowStyle}
+	for _, v := range vs {
+		n.Content = append(n.Content, yamlString(v))
+	}
+	return n
+}
+
 func writePersonalDatabase(dbPath string, commands []database.Command) error {
-	data, err := yaml.Marshal(commands)
+	data, err := marshalNotebook(commands)
 	if err != nil {
 		return fmt.Errorf("failed to marshal commands: %w", err)
 	}
